@@ -147,3 +147,9 @@ func Keys[K comparable, V any](m map[K]V, site string) []K {
 	}
 	return out
 }
+
+// ParseSteps counts the entries of (*parser).parseExpr in the instrumented build: a count of parser work that does not depend
+// on what the parser itself counts, and that covers every parser instance of the process.
+var ParseSteps uint64
+
+func ParseStep() { ParseSteps++ }
